@@ -68,13 +68,41 @@ theorem schema_located_reffree (env : Env) (impl : FmtImpl) (d : Draft) (fc : Op
     the reference objects on the way (`Spec.navR`: a reference contributes no path element, the walk
     continues in the designated schema), reaches that value; an error of a `false` schema ends at
     the `false`, possibly designated by a final reference. -/
-theorem schema_located_refs (env : Env) (hf : Props.C15.StableFetch env) (impl : FmtImpl) (d : Draft)
+def schema_located_refs_statement : Prop :=
+  ∀ (env : Env) (_hf : Props.C15.StableFetch env) (impl : FmtImpl) (d : Draft)
+    (fc : Option FormatChecker) (fuel : Nat) (i s : Json) (_hws : Spec.WF s = true)
+    (base : List (Str × Json)) (_hw : Spec.WorldOK env base)
+    (b : Option Nat) (st : RState) (_hst : Props.C15.SameWorld env base st st),
+    ∀ e ∈ (eval env impl (d.cfg fc) fuel i s b st).errs,
+      Spec.schemaLocatedR env d base st.top s [] e
+
+/-- The statement above is FALSE as given: Drafts 3 and 4 do not constrain `$ref`, and a `$ref` whose
+    value is a FALSY SCALAR (`None`, `0`, `0.0`, `false`) is followed when the base URI in effect is
+    non-empty — `urljoin(base, url)` then continues with `if not url: return base`, so it is read as the
+    empty reference (`JS.refReading`) — while `Spec.navR` hops at string references only.  Draft 4,
+    `{"id": "urn:root", "type": "object", "properties": {"x": {"$ref": 0}}}`, instance `{"x": 1}`: the
+    property is validated against the root schema, the error's schema path `properties/x/type` cannot
+    be followed through `{"$ref": 0}`. -/
+theorem schema_located_refs_counterexample : ¬ schema_located_refs_statement := by
+  intro h
+  exact LocatedRef.Falsy.refute (k := skey "type") (by decide) LocatedRef.Falsy.paths4 LocatedRef.Falsy.nav4
+    (h LocatedRef.Ex.env LocatedRef.Ex.stable LocatedRef.Ex.impl .d4 none 3 LocatedRef.Ex.inst
+      LocatedRef.Falsy.schema4 LocatedRef.Falsy.wf_schema4 [([], LocatedRef.Falsy.schema4)]
+      (LocatedRef.Ex.worldOK _ LocatedRef.Falsy.wf_schema4) none _
+      (Props.C15.sameWorld_iff.2 (LocatedRef.Ex.sameWorld _)))
+
+/-- The statement with the missing hypothesis made explicit: no `$ref` member — of `s` (`hrs`), of the
+    documents the caller supplied or retrieval yields (`hrw`) — has a falsy scalar value
+    (`JS.refsProper`; C03's proviso `Spec.refsAreStrings` implies it:
+    `LocatedRef.Falsy.refsProper_of_refsAreStrings`). -/
+theorem schema_located_refs_partial (env : Env) (hf : Props.C15.StableFetch env) (impl : FmtImpl) (d : Draft)
     (fc : Option FormatChecker) (fuel : Nat) (i s : Json) (hws : Spec.WF s = true)
-    (base : List (Str × Json)) (hw : Spec.WorldOK env base)
+    (hrs : refsProper s = true)
+    (base : List (Str × Json)) (hw : Spec.WorldOK env base) (hrw : LocatedRef.RefsProperWorld env base)
     (b : Option Nat) (st : RState) (hst : Props.C15.SameWorld env base st st) :
     ∀ e ∈ (eval env impl (d.cfg fc) fuel i s b st).errs,
       Spec.schemaLocatedR env d base st.top s [] e :=
-  LocatedRef.schemaR_eval hf hw impl fc fuel i s st.scopes b st hws
+  LocatedRef.schemaR_eval hf hw hrw impl fc fuel i s st.scopes b st hws hrs
     ⟨(Props.C15.sameWorld_iff.1 hst).left, rfl⟩
 
 /-- non-vacuity: `{"definitions": {"a": {"type": "string"}}, "properties": {"x": {"$ref":
@@ -89,9 +117,11 @@ example :
       ∧ e.info.map (·.kwVal) = some (.str (skey "string"))
       ∧ Spec.schemaLocatedR LocatedRef.Ex.env .d7 [([], LocatedRef.Ex.schema)] [] LocatedRef.Ex.schema [] e := by
   have hp := LocatedRef.Ex.paths
-  have h := schema_located_refs LocatedRef.Ex.env LocatedRef.Ex.stable LocatedRef.Ex.impl .d7 none 3
-    LocatedRef.Ex.inst LocatedRef.Ex.schema LocatedRef.Ex.wf_schema [([], LocatedRef.Ex.schema)]
-    (LocatedRef.Ex.worldOK _ LocatedRef.Ex.wf_schema) none (LocatedRef.Ex.st LocatedRef.Ex.schema)
+  have h := schema_located_refs_partial LocatedRef.Ex.env LocatedRef.Ex.stable LocatedRef.Ex.impl .d7 none 3
+    LocatedRef.Ex.inst LocatedRef.Ex.schema LocatedRef.Ex.wf_schema LocatedRef.Falsy.rp_schema
+    [([], LocatedRef.Ex.schema)]
+    (LocatedRef.Ex.worldOK _ LocatedRef.Ex.wf_schema) (LocatedRef.Falsy.refsProperWorld _ LocatedRef.Falsy.rp_schema)
+    none (LocatedRef.Ex.st LocatedRef.Ex.schema)
     (Props.C15.sameWorld_iff.2 (LocatedRef.Ex.sameWorld _))
   cases hes : (eval LocatedRef.Ex.env LocatedRef.Ex.impl (Draft.d7.cfg none) 3 LocatedRef.Ex.inst
       LocatedRef.Ex.schema none (LocatedRef.Ex.st LocatedRef.Ex.schema)).errs with
